@@ -494,7 +494,15 @@ impl<'a, T: Transport> Transferrer<'a, T> {
             }
             SymlinkMode::Follow => {
                 // Follow the symlink and copy the target
-                if let Some(ref target) = source.symlink_target {
+                if let Some(ref raw_target) = source.symlink_target {
+                    // A relative target is relative to the directory that holds the link,
+                    // not to the working directory of this process
+                    let resolved = match source.path.parent() {
+                        Some(dir) if raw_target.is_relative() => dir.join(raw_target),
+                        _ => raw_target.clone(),
+                    };
+                    let target = &resolved;
+
                     // Check if target exists
                     if !target.exists() {
                         tracing::warn!(
